@@ -144,3 +144,7 @@ from props import workbench as WB   # noqa: E402
 CLAUSES.append(Clause("object_history", lambda tier: WB.fa_programs(tier, "subset"), WB.run_fa, quick=500, thorough=5000,
                       rule="(nfa_to_dfa on objects with a history: queried before, modified in place, determinised again) " + WB.FA_RULE))
 KNOWN_PREDICATES = {}
+
+# coverage-guided second driver (atheris / libFuzzer through Hypothesis' fuzz_one_input) for the core clauses: (clause, quick runs, thorough runs)
+from harness.covfuzz import cov_clauses  # noqa: E402
+CLAUSES += cov_clauses('C03', CLAUSES, [('nfa_to_dfa', 3000, 60000)])
